@@ -51,6 +51,7 @@ Proof.
   destruct (loop_function_simulation lp_M lp_fn flow_depth lp_body lp_e lp_tf lp_F eq_refl eq_refl eq_refl eq_refl eq_refl lp_tl lp_te eq_refl eq_refl eq_refl lp_lits_exact Hnan)
     with (P := P) (ws := lp_ws) (g := lp_g) (vs := lp_vs) (fuel := 30) (fl := fl) (st' := st') as (v & vs' & -> & Hrun & _).
   - repeat constructor; cbn; auto.
+  - cbn; tauto.
   - repeat constructor.
   - intros x Hx Hg. cbn in Hx, Hg. destruct Hg as [Hg|[]]. subst x. destruct Hx as [Hx|[Hx|[]]]; inversion Hx.
   - intros x p H. unfold genvl in H. cbn [lp_M m_globals map find fst snd] in H. destruct (String.eqb_spec "g" x) as [<-|Hne]; [|discriminate]. inversion H; subst p. cbn.
